@@ -318,3 +318,140 @@ Theorem C11_helpers_out_of_bounds : forall (T : Type) (p : list T) (n : nat) (x 
   real_roll_fore p n = None /\ real_roll_back p n = None.
 Proof. exact @helpers_out_of_bounds. Qed.
 Print Assumptions C11_helpers_out_of_bounds.
+
+(* ================================================================ ROUNDING ERROR OF THE REDUCTIONS AND OF norm2 (C11/RoundProofs.v)
+   Everything above is about exact real arithmetic (R_ops).  The theorems below bound the distance between that exact value
+   and what the SAME model term returns when every arithmetic operation is followed by a rounding function rnd (instance
+   Rnd_ops rnd, Common/RoundOps.v), in the STANDARD MODEL WITH GRADUAL UNDERFLOW
+       std_model rnd eps eta :=  (forall x, |rnd x - x| <= eps |x| + eta)  /\  rnd 0 = 0  /\  0 <= eps < 1/4  /\  0 <= eta.
+   OVERFLOW IS OUTSIDE THE MODEL (rnd has unbounded range).  IEEE binary64 round-to-nearest-even satisfies it with
+   eps = 2^-53, eta = 2^-1075 (C11_binary64_satisfies_model, by Flocq; rnd64 is also idempotent and exact on 1 and on
+   integers up to 2^53, which discharges the side conditions in the ..._binary64 theorems).  That each binary64
+   operation of the C / of the F64_ops run returns rnd64 of the exact result (finite operands, no overflow) is Flocq's
+   theorem on Coq's primitive floats (Common/RoundFlocq.v prim_*_rnd64); its composition along a whole loop is not proved.
+   Scope: sum, dot, mean (all lengths, all strides, by induction) and norm2.  NOT covered: norm3, norm_, the
+   hyperbolic/expm1/log1p/atan2 bodies (their accuracy clauses above stay ..._partial).
+   prods xs ys = [x_i * y_i], gamma eps k = k eps / (1 - k eps).  The cells are arbitrary reals unless stated.
+   Non-vacuity: RoundProofs.reductions_round_id (identity rounding: all four bounds are 0 and the instances agree),
+   sum_round_scale (inexact model rnd v = 9/8 v: 225/64 vs 3, inside the bound), norm2_round_binary64_ex (x=3, y=-4). *)
+From LibaV Require Import Common.RoundOps Common.RoundFlocq C11.RoundProofs.
+
+(* recursive summation: n roundings for arbitrary cells; n-1 (the classical constant) when the first cell is representable *)
+Theorem C11_sum_rounding_bound : forall (rnd : R -> R) (eps eta : R), std_model rnd eps eta ->
+  forall (n : nat) (p : list R) (c : nat), in_bounds n p 0 c ->
+  let xs := cells 0 n p 0 c in
+  exists sr, real_sum_ (Rnd_ops rnd) n p c = Some sr /\ real_sum_ R_ops n p c = Some (rsum xs) /\
+    Rabs (sr - rsum xs) <= ((1 + eps) ^ n - 1) * rsum (map Rabs xs) + INR n * eta * (1 + eps) ^ n.
+Proof. exact sum_round. Qed.
+Print Assumptions C11_sum_rounding_bound.
+
+Theorem C11_sum_rounding_bound_sharp : forall (rnd : R -> R) (eps eta : R), std_model rnd eps eta ->
+  forall (n : nat) (p : list R) (c : nat), in_bounds n p 0 c -> (1 <= n)%nat -> rnd (nth 0 p 0) = nth 0 p 0 ->
+  let xs := cells 0 n p 0 c in
+  exists sr, real_sum_ (Rnd_ops rnd) n p c = Some sr /\ real_sum_ R_ops n p c = Some (rsum xs) /\
+    Rabs (sr - rsum xs) <= ((1 + eps) ^ (n - 1) - 1) * rsum (map Rabs xs) + INR (n - 1) * eta * (1 + eps) ^ (n - 1).
+Proof. exact sum_round_sharp. Qed.
+Print Assumptions C11_sum_rounding_bound_sharp.
+
+Theorem C11_sum_rounding_bound_gamma : forall (rnd : R -> R) (eps eta : R), std_model rnd eps eta ->
+  forall (n : nat) (p : list R) (c : nat), in_bounds n p 0 c -> (1 <= n)%nat -> rnd (nth 0 p 0) = nth 0 p 0 ->
+  INR (n - 1) * eps < 1 ->
+  let xs := cells 0 n p 0 c in
+  exists sr, real_sum_ (Rnd_ops rnd) n p c = Some sr /\ real_sum_ R_ops n p c = Some (rsum xs) /\
+    Rabs (sr - rsum xs) <= gamma eps (n - 1) * rsum (map Rabs xs) + INR (n - 1) * eta * (1 + gamma eps (n - 1)).
+Proof. exact sum_round_gamma. Qed.
+Print Assumptions C11_sum_rounding_bound_gamma.
+
+(* dot product: n+1 for any rounding; n (the classical gamma_n) for an idempotent rounding *)
+Theorem C11_dot_rounding_bound : forall (rnd : R -> R) (eps eta : R), std_model rnd eps eta ->
+  forall (n : nat) (X : list R) (Xc : nat) (Y : list R) (Yc : nat), in_bounds n X 0 Xc -> in_bounds n Y 0 Yc ->
+  let ps := prods (cells 0 n X 0 Xc) (cells 0 n Y 0 Yc) in
+  exists dr, real_dot_ (Rnd_ops rnd) n X Xc Y Yc = Some dr /\ real_dot_ R_ops n X Xc Y Yc = Some (rsum ps) /\
+    Rabs (dr - rsum ps) <= ((1 + eps) ^ (n + 1) - 1) * rsum (map Rabs ps) + 2 * INR n * eta * (1 + eps) ^ (n + 1).
+Proof. exact dot_round. Qed.
+Print Assumptions C11_dot_rounding_bound.
+
+Theorem C11_dot_rounding_bound_sharp : forall (rnd : R -> R) (eps eta : R), std_model rnd eps eta ->
+  forall (n : nat) (X : list R) (Xc : nat) (Y : list R) (Yc : nat), in_bounds n X 0 Xc -> in_bounds n Y 0 Yc ->
+  (1 <= n)%nat -> (forall v, rnd (rnd v) = rnd v) ->
+  let ps := prods (cells 0 n X 0 Xc) (cells 0 n Y 0 Yc) in
+  exists dr, real_dot_ (Rnd_ops rnd) n X Xc Y Yc = Some dr /\ real_dot_ R_ops n X Xc Y Yc = Some (rsum ps) /\
+    Rabs (dr - rsum ps) <= ((1 + eps) ^ n - 1) * rsum (map Rabs ps) + (2 * INR n - 1) * eta * (1 + eps) ^ n.
+Proof. exact dot_round_sharp. Qed.
+Print Assumptions C11_dot_rounding_bound_sharp.
+
+Theorem C11_dot_rounding_bound_gamma : forall (rnd : R -> R) (eps eta : R), std_model rnd eps eta ->
+  forall (n : nat) (X : list R) (Xc : nat) (Y : list R) (Yc : nat), in_bounds n X 0 Xc -> in_bounds n Y 0 Yc ->
+  (1 <= n)%nat -> (forall v, rnd (rnd v) = rnd v) -> INR n * eps < 1 ->
+  let ps := prods (cells 0 n X 0 Xc) (cells 0 n Y 0 Yc) in
+  exists dr, real_dot_ (Rnd_ops rnd) n X Xc Y Yc = Some dr /\ real_dot_ R_ops n X Xc Y Yc = Some (rsum ps) /\
+    Rabs (dr - rsum ps) <= gamma eps n * rsum (map Rabs ps) + (2 * INR n - 1) * eta * (1 + gamma eps n).
+Proof. exact dot_round_gamma. Qed.
+Print Assumptions C11_dot_rounding_bound_gamma.
+
+(* mean: i = 1/(a_real)n rounded once (1 and n representable), then r += x * i: two roundings per term *)
+Theorem C11_mean_rounding_bound : forall (rnd : R -> R) (eps eta : R), std_model rnd eps eta ->
+  forall (n : nat) (p : list R) (c : nat), in_bounds n p 0 c -> (1 <= n)%nat -> rnd 1 = 1 -> rnd (INR n) = INR n ->
+  let xs := cells 0 n p 0 c in
+  exists mr, real_mean_ (Rnd_ops rnd) n p c = Some mr /\ real_mean_ R_ops n p c = Some (rsum xs / INR n) /\
+    Rabs (mr - rsum xs / INR n)
+      <= ((1 + eps) ^ (n + 2) - 1) * (rsum (map Rabs xs) / INR n)
+         + eta * (1 + eps) ^ (n + 2) * ((1 + eps) * rsum (map Rabs xs) + 2 * INR n).
+Proof. exact mean_round. Qed.
+Print Assumptions C11_mean_rounding_bound.
+
+(* norm2 (the fallback hypot): five roundings; relative error 7/2 (eps + eta) plus eta, first-order constant 3.25 *)
+Theorem C11_norm2_rounding_bound : forall (rnd : R -> R) (eps eta : R), std_model rnd eps eta ->
+  forall x y : R, rnd 1 = 1 -> eps + eta <= / 64 ->
+  (x = 0 \/ 2 * eta <= Rabs x) -> (y = 0 \/ 2 * eta <= Rabs y) ->
+  let h := sqrt (x * x + y * y) in
+  real_norm2 R_ops x y = h /\
+  Rabs (real_norm2 (Rnd_ops rnd) x y - h) <= 7 / 2 * (eps + eta) * h + eta.
+Proof. exact norm2_round. Qed.
+Print Assumptions C11_norm2_rounding_bound.
+
+(* ---------------------------------------------------------------- IEEE binary64 (Flocq), overflow excluded *)
+Theorem C11_binary64_satisfies_model :
+  std_model rnd64 eps64 eta64 /\ eps64 = / 9007199254740992 /\ eta64 = / IZR (2 ^ 1075) /\
+  (forall v, rnd64 (rnd64 v) = rnd64 v) /\ rnd64 1 = 1 /\ (forall n, (n <= 2 ^ 53)%nat -> rnd64 (INR n) = INR n) /\
+  (forall x, rnd64 x = Flocq.Core.Generic_fmt.round Flocq.Core.Zaux.radix2 (Flocq.Core.FLT.FLT_exp (-1074) 53)
+                         (Flocq.Core.Generic_fmt.Znearest (fun z => negb (Z.even z))) x).
+Proof.
+  exact (conj std_model_binary64 (conj eps64_val (conj eta64_val (conj rnd64_idem (conj rnd64_1 (conj rnd64_INR (fun x => eq_refl))))))).
+Qed.
+Print Assumptions C11_binary64_satisfies_model.
+
+Theorem C11_sum_rounding_bound_binary64 : forall (n : nat) (p : list R) (c : nat), in_bounds n p 0 c ->
+  let xs := cells 0 n p 0 c in
+  exists sr, real_sum_ (Rnd_ops rnd64) n p c = Some sr /\ real_sum_ R_ops n p c = Some (rsum xs) /\
+    Rabs (sr - rsum xs) <= ((1 + eps64) ^ n - 1) * rsum (map Rabs xs) + INR n * eta64 * (1 + eps64) ^ n /\
+    ((1 <= n)%nat -> rnd64 (nth 0 p 0) = nth 0 p 0 ->
+     Rabs (sr - rsum xs) <= ((1 + eps64) ^ (n - 1) - 1) * rsum (map Rabs xs) + INR (n - 1) * eta64 * (1 + eps64) ^ (n - 1)).
+Proof. exact sum_round_binary64. Qed.
+Print Assumptions C11_sum_rounding_bound_binary64.
+
+Theorem C11_dot_rounding_bound_binary64 : forall (n : nat) (X : list R) (Xc : nat) (Y : list R) (Yc : nat),
+  in_bounds n X 0 Xc -> in_bounds n Y 0 Yc -> (1 <= n)%nat ->
+  let ps := prods (cells 0 n X 0 Xc) (cells 0 n Y 0 Yc) in
+  exists dr, real_dot_ (Rnd_ops rnd64) n X Xc Y Yc = Some dr /\ real_dot_ R_ops n X Xc Y Yc = Some (rsum ps) /\
+    Rabs (dr - rsum ps) <= ((1 + eps64) ^ n - 1) * rsum (map Rabs ps) + (2 * INR n - 1) * eta64 * (1 + eps64) ^ n.
+Proof. exact dot_round_binary64. Qed.
+Print Assumptions C11_dot_rounding_bound_binary64.
+
+Theorem C11_mean_rounding_bound_binary64 : forall (n : nat) (p : list R) (c : nat), in_bounds n p 0 c -> (1 <= n <= 2 ^ 53)%nat ->
+  let xs := cells 0 n p 0 c in
+  exists mr, real_mean_ (Rnd_ops rnd64) n p c = Some mr /\ real_mean_ R_ops n p c = Some (rsum xs / INR n) /\
+    Rabs (mr - rsum xs / INR n)
+      <= ((1 + eps64) ^ (n + 2) - 1) * (rsum (map Rabs xs) / INR n)
+         + eta64 * (1 + eps64) ^ (n + 2) * ((1 + eps64) * rsum (map Rabs xs) + 2 * INR n).
+Proof. exact mean_round_binary64. Qed.
+Print Assumptions C11_mean_rounding_bound_binary64.
+
+(* every binary64 number is 0 or at least 2^-1074 = 2 eta64 in magnitude: the side conditions hold for all float arguments *)
+Theorem C11_norm2_rounding_bound_binary64 : forall x y : R,
+  (x = 0 \/ 2 * eta64 <= Rabs x) -> (y = 0 \/ 2 * eta64 <= Rabs y) ->
+  let h := sqrt (x * x + y * y) in
+  real_norm2 R_ops x y = h /\
+  Rabs (real_norm2 (Rnd_ops rnd64) x y - h) <= 7 / 2 * (eps64 + eta64) * h + eta64.
+Proof. exact norm2_round_binary64. Qed.
+Print Assumptions C11_norm2_rounding_bound_binary64.
